@@ -1539,6 +1539,47 @@ def fam_uf(sh, r, cla, ref, desc):
 # driver
 # ------------------------------------------------------------------------------------
 
+def nan_helpers(sh, cla, s, count):
+    """cla.nan_argmax / nan_argmin / nan_absmax against their definitions, element by
+    element (coarse grid values: exact ties, NaN on either or both sides, broadcasting)."""
+    import numpy as np
+    for i in range(count):
+        r = core.rng(sh.seed, "C16", "nan", s, i)
+        shape = [(5,), (4, 3), (3, 1)][i % 3]
+        shape2 = shape if i % 3 != 2 else (3, 4)
+        v1 = r.integers(-4, 5, shape) * 0.5
+        v2 = r.integers(-4, 5, shape2) * 0.5
+        v1[r.random(shape) < 0.25] = np.nan
+        v2[r.random(shape2) < 0.25] = np.nan
+        case = {"fam": "nan", "slice": s, "i": i, "v1": v1.tolist(), "v2": v2.tolist()}
+        tags = {"family": "nan"}
+        sh.case(["nan", s, i], True, sample=case)
+        b1, b2 = np.broadcast_arrays(v1, v2)
+        gt = np.zeros(b1.shape, bool)
+        lt = np.zeros(b1.shape, bool)
+        am = np.zeros(b1.shape, bool)
+        for idx in np.ndindex(b1.shape):
+            a, b = float(b1[idx]), float(b2[idx])
+            na, nb_ = a != a, b != b
+            gt[idx] = (not nb_) and (na or b > a)
+            lt[idx] = (not nb_) and (na or b < a)
+            am[idx] = (not nb_) and (na or abs(b) > abs(a))
+        keep = (v1.copy(), v2.copy())
+        _same(sh, "nan_argmax", np.asarray(cla.nan_argmax(v1, v2)).astype(float),
+              gt.astype(float), case, tags)
+        _same(sh, "nan_argmin", np.asarray(cla.nan_argmin(v1, v2)).astype(float),
+              lt.astype(float), case, tags)
+        if v1.shape == v2.shape:
+            amx, pv = cla.nan_absmax(v1, v2)
+            _same(sh, "nan_absmax-pv", np.asarray(pv).astype(float), am.astype(float),
+                  case, tags)
+            _same(sh, "nan_absmax-values", amx, np.where(am, v2, v1), case, tags)
+        sh.count("mon:nan-helpers-inputs-unmutated")
+        if not (np.array_equal(v1, keep[0], equal_nan=True)
+                and np.array_equal(v2, keep[1], equal_nan=True)):
+            sh.violation("nan-helpers-inputs-unmutated", case, {}, tags)
+
+
 def run_shard(sh, params):
     import numpy as np  # noqa
     from pyyeti import cla
@@ -1546,6 +1587,8 @@ def run_shard(sh, params):
     budget = BUDGET[sh.tier]
     s, ns = params["slice"], params["nslice"]
     only = params.get("only")
+    if not only:
+        nan_helpers(sh, cla, s, 40 if sh.tier == "quick" else 600)
     for fam in ("ext", "time", "frf", "psd", "tree", "uf"):
         if only and fam not in only:
             continue
@@ -1566,6 +1609,7 @@ def run_shard(sh, params):
 
 
 MANDATORY_MONITORS = [
+    "nan_argmax", "nan_argmin", "nan_absmax-pv", "nan_absmax-values",
     "ext1-values", "ext1-abscissa", "ext1-maxcase", "ext1-mincase", "ext1-percase",
     "ext1-order-invariance", "ext2-values", "ext2-abscissa", "ext2-maxcase", "ext2-mincase",
     "ext2-percase", "ext2-order-invariance", "ext-inputs-unmutated",
